@@ -278,6 +278,9 @@ func (g *G) BadAttestation(label string, message []byte) ([]byte, string) {
 	good := g.HonestAttestation(label+"/base", message)
 	ks := g.W.EnabledKeys()
 	t := int(g.W.Model.Thr)
+	if t > 40 || t < 0 {
+		t = 40 // hostile genesis thresholds: keep generated attestations small
+	}
 	switch k := g.Int(label+"/class", 0, 8); {
 	case k == 0 || good == nil:
 		return g.Bytes(label+"/raw", 65*maxInt(t, 1)), "random-bytes"
@@ -1055,7 +1058,7 @@ func (g *G) ReplaceOp(label string, validPct int) *Op {
 	if cls == "own-badatt" {
 		att, _ = g.BadAttestation(label+"/att", orig)
 	} else if g.NoForge && (cls == "forged-own" || cls == "forged-module" || cls == "user-sent-burn") {
-		att = g.Bytes(label+"/unsigned", 65*maxInt(1, int(g.W.Model.Thr)))
+		att = g.Bytes(label+"/unsigned", 65*maxInt(1, minInt(40, int(g.W.Model.Thr))))
 	} else {
 		att = g.HonestAttestation(label+"/att", orig)
 		if att == nil {
@@ -1134,7 +1137,7 @@ func (g *G) RepDepOp(label string, validPct int) *Op {
 	if cls == "own-badatt" {
 		att, _ = g.BadAttestation(label+"/att", orig)
 	} else if g.NoForge && (cls == "forged-own" || cls == "forged-module" || cls == "user-sent-burn") {
-		att = g.Bytes(label+"/unsigned", 65*maxInt(1, int(g.W.Model.Thr)))
+		att = g.Bytes(label+"/unsigned", 65*maxInt(1, minInt(40, int(g.W.Model.Thr))))
 	} else {
 		att = g.HonestAttestation(label+"/att", orig)
 		if att == nil {
